@@ -377,6 +377,7 @@ func main() {
 		}
 	}
 
+	emitVoice := emit // voice flows are part of the model (dial waits begin, dial_wait events count as waits)
 	if o.Replay != "" && prop == "C05" && replayPayload(o.Replay, res) {
 		res.Write(o)
 		return
@@ -420,6 +421,34 @@ func main() {
 	for i := 0; i < n && !hung; i++ {
 		r := rnd.Fork(fmt.Sprintf("case%d", i))
 		resetSources(int64(o.Seed)*100003 + int64(i))
+		if i%8 == 5 {
+			// voice flows: dial waits (and msg waits) the session keeps coming back to, dial resumes of every status,
+			// other resume types in between, small resume limits
+			a := genVoice(r)
+			h := &History{Assets: a, Trigger: Trigger{Kind: "manual", Flow: 1}}
+			w := &world{}
+			first := w.start(h)
+			lim := a.Opts.MaxResumes
+			if lim > 4 {
+				lim = 4
+			}
+			var ops []Op
+			for k := r.Range(lim+1, 2*lim+4); k > 0; k-- {
+				switch r.Intn(10) {
+				case 0:
+					ops = append(ops, Op{Kind: "msg", Text: hx.Pick(r, words)})
+				case 1:
+					ops = append(ops, Op{Kind: hx.Pick(r, []string{"timeout", "expiration"})})
+				default:
+					ops = append(ops, Op{Kind: "dial", Text: hx.Pick(r, []string{"answered", "busy", "no_answer", "failed"})})
+				}
+			}
+			res.Dist("voice")
+			if calls := runHistory(prop, nil, h, w, first, a, res, ops); calls != nil {
+				emitVoice(i, h, calls)
+			}
+			continue
+		}
 		// histories that end in their first sprint say little about resumes: C10 (and, less strongly,
 		// C01) draw again a few times when the session is not waiting after the trigger
 		tries := map[string]int{"C10": 6, "C01": 2}[prop]
